@@ -759,7 +759,7 @@ with builtin_call (n : nat) (fr : list frame) (b : builtin) (args : list value) 
       | VCo r => fun s => Ret [VStr (co_status_name (nth r (cos s) CoDead))] s
       | _ => badarg
       end
-  | BCoRunning => fun s => match cur s with Some r => Ret [VCo r] s | None => Ret [] s end
+  | BCoRunning => fun s => match cur s with Some r => Ret [VCo r] s | None => Ret [VNil] s end  (* manual: nil on the main thread *)
   | BTInsert =>
       match a1 with
       | VTab r => do t <- read_tab r;
